@@ -3,14 +3,63 @@ uniform selection of the rest, fault-tolerant midpoint over one value per
 participant, error without paths.
 
 spec/Multipath.tla <-> core/client/client.go MeasureClockOffsetSCION,
-base/crypto/crypto.go Sample/RandIntn (harness/c15)."""
-import itertools, math, os, random, threading
+base/crypto/crypto.go Sample/RandIntn, and - for the rounds that draw from one
+path table - net/scion/pather.go Pather.Paths/update as used by timeservice.go
+ntpReferenceClockSCION.MeasureClockOffset (harness/c15).
+
+The scripted daemon behind the Pather is injected with `go test -overlay`: the
+overlay adds net/scion/hooks_verif_c15.go (harness/c15/overlay) and a copy of
+daemon.go in which NewDaemonConnector is renamed; nothing under the repository
+is touched."""
+import itertools, json, math, os, random, re, threading
 import vlib
 
 U32 = 1 << 32
 # the monitor clauses of spec/trace/MultipathTrace_mon.cfg
 MON_INVARIANTS = ["RDistinct", "RStickyKept", "RElseReset", "RParticipants", "RFtm", "RNoPathError",
                   "RWordRange", "RUniformRounds", "RUniformSample"]
+
+
+# the property-section invariants of spec/Multipath.tla
+SPEC_PROPERTY = {"Distinct", "StickyKept", "ElseResetWithFilter", "Participants", "LaunchedAreParticipants",
+                 "OneValuePerParticipant", "NoPathError"}
+
+
+def overlay(ctx):
+    repo = os.path.abspath(vlib.REPO)
+    src = os.path.join(repo, "net", "scion", "daemon.go")
+    try:
+        text = open(src).read()
+    except OSError as e:
+        raise vlib.Inconclusive("cannot read %s: %s" % (src, e))
+    if text.count("func NewDaemonConnector(") != 1:
+        raise vlib.Inconclusive("net/scion/daemon.go: NewDaemonConnector not found exactly once; the overlay of "
+                                "harness/c15 needs attention")
+    renamed = ctx.path("daemon_c15.go")
+    open(renamed, "w").write(text.replace("func NewDaemonConnector(", "func newDaemonConnectorOrig("))
+    hook = os.path.join(vlib.HARNESS, "c15", "overlay", "hooks_verif_c15.go.txt")
+    ov = ctx.path("overlay.json")
+    json.dump({"Replace": {src: renamed, os.path.join(repo, "net", "scion", "hooks_verif_c15.go"): hook}}, open(ov, "w"))
+    return ov
+
+
+def mirror_drift(ctx):
+    """harness/c15 repeats the two statements of ntpReferenceClockSCION.MeasureClockOffset
+    (timeservice.go) that connect the Pather to MeasureClockOffsetSCION.  If that function no
+    longer contains them the mirror may be stale: reported as DRIFT, never as a verdict."""
+    try:
+        text = open(os.path.join(os.path.abspath(vlib.REPO), "timeservice.go")).read()
+    except OSError as e:
+        ctx.drift.append("timeservice.go not readable (%s): the harness' copy of MeasureClockOffset is unchecked" % e)
+        return
+    m = re.search(r"func \(c \*ntpReferenceClockSCION\) MeasureClockOffset\(.*?\n}\n", text, re.S)
+    body = re.sub(r"\s+", "", m.group(0)) if m else ""
+    want = ["ps=c.pather.Paths(c.remoteAddr.IA)",
+            "returnclient.MeasureClockOffsetSCION(ctx,c.log,c.ntpcs[:],c.localAddr,c.remoteAddr,ps)"]
+    if not all(w in body for w in want):
+        ctx.drift.append("timeservice.go ntpReferenceClockSCION.MeasureClockOffset no longer reads `ps = "
+                         "c.pather.Paths(c.remoteAddr.IA)` / `return client.MeasureClockOffsetSCION(ctx, c.log, "
+                         "c.ntpcs[:], c.localAddr, c.remoteAddr, ps)`: harness/c15 (runRound) mirrors these statements")
 
 
 def lcm_upto(n):
@@ -44,6 +93,7 @@ class Builder:
         self.out = []
         self.gid = 0
         self.nid = 0
+        self.nsid = 0
         self.ngroups = 0
 
     def v_for(self, rng, k, n, L):
@@ -53,7 +103,7 @@ class Builder:
                 v.append(j + (i + 1) * self.rnd.randrange(L // (i + 1)))
         return v
 
-    def round(self, case, v, L, script=None, g=(0, 0, 0), exp_off=True, rej=None):
+    def round(self, case, v, L, script=None, g=(0, 0, 0), exp_off=True, rej=None, emit=True, stale=False):
         nc = case["nc"]
         self.nid += 1
         if script is None:
@@ -61,12 +111,38 @@ class Builder:
         fk = [self.rnd.randrange(4) if m == 0 else 0 for m in case["mode"]]
         if rej is None:
             rej = [1 if self.rnd.random() < 0.1 else 0 for _ in v]
-        self.out.append(dict(
+        r = dict(
             kind="round", id=self.nid, gid=g[0], gpos=g[1], glen=g[2], L=L, D=len(v), v=v, rej=rej,
             nc=nc, offered=case["offered"], mode=case["mode"], fresh_kind=fk, theta=case["theta"],
-            script=script,
+            script=script, exp_stale=stale,
             exp=dict(asg=case["asg"], resets=case["resets"], rng=case["rng"], err=case["err"],
-                     off=case["off"] if exp_off else -999)))
+                     off=case["off"] if exp_off else -999))
+        if emit:
+            self.out.append(r)
+        return r
+
+    def session(self, events, last_v=None, last_L=None, g=(0, 0, 0), fixed=False):
+        """A behaviour of several rounds on one path table (events as TLC emitted them: refreshes and
+        rounds).  last_v: word residues of the last round (a member of a uniformity group); fixed: the
+        scripted words of the other rounds contain no rejected ones (identical in every member)."""
+        self.nsid += 1
+        evs, stale = [], False
+        last = max(i for i, e in enumerate(events) if e["ev"] == "round")
+        for i, e in enumerate(events):
+            if e["ev"] == "refresh":
+                evs.append(dict(kind="refresh", offered=e["offered"]))
+                stale = False
+                continue
+            n = e["k"] + len(e["rng"])
+            if i == last and last_v is not None:
+                r = self.round(e, list(last_v), last_L, g=g, rej=[0] * len(last_v), emit=False, stale=stale)
+            else:
+                L = lcm_upto(max(n, 1))
+                v = self.v_for(e["rng"], e["k"], n, L)
+                r = self.round(e, v, L, rej=[0] * len(v) if fixed else None, emit=False, stale=stale)
+            evs.append(r)
+            stale = stale or e["dirty"]
+        self.out.append(dict(kind="session", sid=self.nsid, events=evs))
 
     def sample(self, k, n, v, L, g=(0, 0, 0)):
         # (no rejected words inside uniformity groups: the enumeration must stay
@@ -93,7 +169,84 @@ def script_of(case, rnd, allow_drop):
     return sc
 
 
-def build_cases(ctx, gen, genc):
+def exercising(events):
+    """Specification side: does this behaviour contain a round that starts, without a refresh in between,
+    after a round that selected in place (its working slice was overwritten)?  Returns the number of
+    such rounds, and of those the ones with a client in interleaved mode on an offered path / with
+    more candidate paths than clients to serve."""
+    n = sticky = surplus = 0
+    stale = False
+    for e in events:
+        if e["ev"] == "refresh":
+            stale = False
+            continue
+        if stale:
+            n += 1
+            if any(m != 0 and m in e["offered"] for m in e["mode"]):
+                sticky += 1
+            if len(e["rng"]) > 0 and e["k"] >= 1:
+                surplus += 1
+        stale = stale or e["dirty"]
+    return n, sticky, surplus
+
+
+def round_key(e):
+    return (e["nc"], tuple(e["mode"]), tuple(e["rng"]))
+
+
+def build_sessions(ctx, b, ses, sim):
+    """(f) rounds that share a path table: TLC's multi-round behaviours (ses: every behaviour of two
+    rounds after one refresh at <= 2 clients, <= 3 paths; sim: random behaviours of up to four rounds
+    with a refresh anywhere at <= 3 clients, <= 4 paths)."""
+    q = ctx.quick
+    rnd = b.rnd
+    n0 = len(b.out)
+    ex = [x for x in ses if exercising(x)[0] > 0]
+    rest = [x for x in ses if exercising(x)[0] == 0]
+    if q:
+        chosen = rnd.sample(ex, min(len(ex), 320)) + rnd.sample(rest, min(len(rest), 60))
+    else:
+        chosen = ses
+    for x in chosen:
+        b.session(x)
+    for x in sim:
+        b.session(x)
+    n_single = len(b.out) - n0
+    # uniformity groups on the second round: the first round (fixed) selected in place, the second one's
+    # words range over all tuples
+    idx = {}
+    for x in ex:
+        r1, r2 = x[1], x[2]
+        key = (tuple(r1["offered"]), round_key(r1), r2["nc"], tuple(r2["mode"]))
+        idx.setdefault(key, {})[tuple(r2["rng"])] = x
+    cands = []
+    for key, m in idx.items():
+        any2 = next(iter(m.values()))[2]
+        k = any2["k"]
+        n = k + len(any2["rng"])
+        if k >= 1 and n > k and len(m) * math.factorial(k) == math.factorial(n):
+            cands.append((key, k, n))
+    cands.sort()
+    want = 30 if q else 600
+    ngr = 0
+    for key, k, n in rnd.sample(cands, min(len(cands), want)):
+        L = lcm_upto(n)
+        mods = consuming(k, n)
+        tuples = list(itertools.product(range(L), repeat=len(mods)))
+        b.gid += 1
+        b.ngroups += 1
+        ngr += 1
+        for pos, v in enumerate(tuples):
+            x = idx[key][tuple(rng_of(v, k, n))]
+            b.session(x, last_v=v, last_L=L, g=(b.gid, pos + 1, len(tuples)), fixed=True)
+    made = b.out[n0:]
+    return dict(sessions=len(made), session_singles=n_single, session_groups=ngr,
+                session_rounds=sum(1 for c in made for e in c["events"] if e["kind"] == "round"),
+                session_refreshes=sum(1 for c in made for e in c["events"] if e["kind"] == "refresh"),
+                stale_rounds=sum(1 for c in made for e in c["events"] if e["kind"] == "round" and e["exp_stale"]))
+
+
+def build_cases(ctx, gen, genc, ses, sim):
     q = ctx.quick
     b = Builder(ctx)
     rnd = b.rnd
@@ -198,9 +351,12 @@ def build_cases(ctx, gen, genc):
         b.word(n, [t, U32 - 1])
         b.word(n, [t + 1])
         b.word(n, [rnd.randrange(U32) for _ in range(6)] + [U32 - 2])
+    # ---- (f) several rounds on one path table
+    sstats = build_sessions(ctx, b, ses, sim)
     stats = dict(configurations=len(cfgs), single_rounds=n_single, group_rounds=n_group, groups=b.ngroups,
                  completion_rounds=n_compl, sample_calls=sum(1 for x in b.out if x["kind"] == "sample"),
                  randintn_calls=sum(1 for x in b.out if x["kind"] == "word"))
+    stats.update(sstats)
     return b.out, stats
 
 
@@ -281,31 +437,64 @@ def run(ctx):
         return t
 
     ctx.specdir()
-    # 1. design level (all four TLC runs are independent of /repo; run side by side)
+    ov = overlay(ctx)
+    nsim = 120 if q else 3000
+    # 1. design level (the TLC runs are independent of /repo; run side by side)
+    # (quick: Multipath_tab.cfg contains Multipath_exh.cfg - its first round - and is run in its place)
     ths = [
-        bg("exh", lambda: ctx.tlc("MultipathMC", "Multipath_exh.cfg" if q else "Multipath_deep.cfg",
-                                  workers=3 if q else 6, timeout=300 if q else 1500, tag="exh")),
+        bg("exh", lambda: ctx.tlc("MultipathMC", "Multipath_tab.cfg" if q else "Multipath_deep.cfg",
+                                  workers=4 if q else 6, timeout=300 if q else 1500, tag="exh")),
         bg("gen", lambda: ctx.tlc("MultipathMC", "Multipath_gen.cfg", workers=1, timeout=300, tag="gen")),
         bg("genc", lambda: ctx.tlc("MultipathMC", "Multipath_genc.cfg" if q else "Multipath_gencdeep.cfg",
                                    workers=1, timeout=300 if q else 900, tag="genc")),
         bg("rand", lambda: ctx.tlc("MultipathMC", "Multipath_rand.cfg" if q else "Multipath_randdeep.cfg",
                                    workers=1, timeout=300 if q else 900, tag="rand")),
+        # rounds that share a path table: exhaustive (refreshes anywhere between the rounds): "exh" (quick) /
+        # "tab" (thorough); the generators of multi-round behaviours (all of two rounds at small scope; random deep ones) ...
+        bg("ses", lambda: ctx.tlc("MultipathMC", "Multipath_ses.cfg", workers=1, timeout=300, tag="ses")),
+        bg("sim", lambda: ctx.tlc("MultipathMC", "Multipath_sim.cfg", workers=1, timeout=300 if q else 900, tag="sim",
+                                  simulate="num=%d" % nsim, depth=200)),
+        # ... and the specification-level control: a working slice that aliases the table breaks the property
+        bg("alias", lambda: ctx.tlc("MultipathMC", "Multipath_alias.cfg", workers=1, timeout=300, tag="alias",
+                                    allow_violation=True)),
         # warm the Go build cache meanwhile
-        bg("warm", lambda: ctx.gotest("c15", "NoSuchTest", timeout=900)),
+        bg("warm", lambda: ctx.gotest("c15", "NoSuchTest", timeout=900, extra=["-overlay", ov])),
     ]
     if not q:
+        ths.append(bg("tab", lambda: ctx.tlc("MultipathMC", "Multipath_tabdeep.cfg", workers=4, timeout=1500, tag="tab")))
         ths.append(bg("deep2", lambda: (ctx.tlc("MultipathMC", "Multipath_deep2.cfg", workers=4, timeout=1500, tag="deep2"),
                                         ctx.tlc("MultipathMC", "Multipath_deep3.cfg", workers=4, timeout=1500, tag="deep3"))))
     for t in ths:
         t.join()
     if errs:
         raise errs[0]
-    ctx.log("TLC: exh %d states, gen %d, genc %d; RandIntn/reservoir counting ASSUMEs hold" %
-            (res["exh"]["distinct"], res["gen"]["distinct"], res["genc"]["distinct"]))
+    if q:
+        res["tab"] = res["exh"]
+    ctx.log("TLC: exh %s states, gen %d, genc %d; RandIntn/reservoir counting ASSUMEs hold" %
+            ("(see shared path table)" if q else res["exh"]["distinct"], res["gen"]["distinct"], res["genc"]["distinct"]))
     gen = ctx.emitted(res["gen"]["out"])
     genc = ctx.emitted(res["genc"]["out"])
     if len(gen) < 5000 or len(genc) < 5000:
         raise vlib.Inconclusive("case generators produced only %d / %d rounds" % (len(gen), len(genc)))
+    ctx.log("TLC: shared path table exhaustive %d states; generator of two-round behaviours %d states" %
+            (res["tab"]["distinct"], res["ses"]["distinct"]))
+    if res["alias"]["violated"] not in SPEC_PROPERTY:
+        raise vlib.Inconclusive("Multipath_alias.cfg (working slice = the table's array) should violate the property "
+                                "section in the second round; TLC reported %s" % res["alias"]["violated"])
+    ses = ctx.emitted(res["ses"]["out"], marker="SES")
+    sim = ctx.emitted(res["sim"]["out"], marker="SES")
+    # vacuity guard, specification side: the generated behaviours must contain rounds that start after an
+    # in-place selection on the same table (the only ones on which sharing the table can show)
+    ex_ses = [exercising(x) for x in ses]
+    ex_sim = [exercising(x) for x in sim]
+    n_ex = sum(1 for e in ex_ses if e[0]) + sum(1 for e in ex_sim if e[0])
+    if len(ses) < 10000 or len(sim) < nsim or sum(1 for e in ex_ses if e[0]) < 2000 or \
+            sum(1 for e in ex_ses if e[1]) < 300 or sum(1 for e in ex_ses if e[2]) < 300 or sum(1 for e in ex_sim if e[0]) < nsim // 4:
+        raise vlib.Inconclusive("multi-round generators: %d + %d behaviours, %d with a round after an in-place selection "
+                                "on the same table" % (len(ses), len(sim), n_ex))
+    ctx.log("multi-round behaviours from TLC: %d exhaustive (2 rounds), %d simulated; %d contain a round after an in-place "
+            "selection on the same table (sticky client on an offered path there: %d, more paths than clients to serve: %d)"
+            % (len(ses), len(sim), n_ex, sum(1 for e in ex_ses + ex_sim if e[1]), sum(1 for e in ex_ses + ex_sim if e[2])))
     ncfg = count_uniform_from_cases(gen)
     ctx.log("uniformity counted on TLC's terminal states: %d configurations, every k-subset equally often" % ncfg)
     rc, wout = res["warm"]
@@ -313,19 +502,31 @@ def run(ctx):
         raise vlib.Inconclusive("harness does not build:\n" + wout[-3000:])
 
     # 2. spec -> code
-    cases, stats = build_cases(ctx, gen, genc)
+    cases, stats = build_cases(ctx, gen, genc, ses, sim)
+    if stats["stale_rounds"] < 300:
+        raise vlib.Inconclusive("driver input has only %d rounds that follow an in-place selection on the same table"
+                                % stats["stale_rounds"])
     cp = ctx.path("cases.ndjson")
     vlib.write_ndjson(cp, cases)
     ctx.log("driver input: %s" % stats)
-    trace, out = ctx.godriver("c15", "TestC15", cases=cp, timeout=600 if q else 3000)
+    trace, out = ctx.godriver("c15", "TestC15", cases=cp, timeout=600 if q else 3000, extra=["-overlay", ov])
     recs = vlib.read_ndjson(trace)
-    if len(recs) != len(cases):
-        raise vlib.Inconclusive("driver produced %d records for %d cases" % (len(recs), len(cases)))
+    nexp = sum(1 for c in cases if c["kind"] != "session") + stats["session_rounds"]
+    if len(recs) != nexp:
+        raise vlib.Inconclusive("driver produced %d records, %d expected" % (len(recs), nexp))
+    # the members of a uniformity group are consecutive in the validated trace (the rounds before the
+    # judged one of a multi-round member carry no group id and stay where they are)
+    order = sorted(range(len(recs)), key=lambda i: (0, i, 0) if not recs[i].get("gid") else (1, recs[i]["gid"], recs[i]["gpos"]))
+    recs = [recs[i] for i in order]
+    mirror_drift(ctx)
     rounds = [r for r in recs if r["kind"] == "round"]
     unj = sum(1 for r in rounds if not r["judged"])
     if unj > max(3, len(rounds) // 100):
         raise vlib.Inconclusive("%d of %d rounds had measurement noise above the grid tolerance" % (unj, len(rounds)))
-    ctx.log("driver: %d records (%d rounds, %d not judged for noise)" % (len(recs), len(rounds), unj))
+    tabr = [r for r in rounds if r["src"] == "pather"]
+    stale_seen = sum(1 for r in tabr if r["exp_stale"])
+    ctx.log("driver: %d records (%d rounds, %d not judged for noise); %d rounds drew from a Pather's table, %d of them "
+            "after an in-place selection of an earlier round on the same table" % (len(recs), len(rounds), unj, len(tabr), stale_seen))
 
     corrupt(ctx, recs)
     # 3. code -> spec: monitor decides, strict reports drift.  A violation ends a
@@ -347,7 +548,9 @@ def run(ctx):
         if not l or inv not in invs:
             raise vlib.Inconclusive("monitor failed without a usable trace position (%s):\n%s" % (inv, tout[-2000:]))
         bad = recs[l - 1]
-        ctx.violation("C15 %s %s" % (inv, bad["kind"]),
+        # input class: a round that drew from a Pather's table after earlier rounds on the same table
+        cls = " shared-path-table" if bad.get("src") == "pather" and bad.get("since", 0) > 0 else ""
+        ctx.violation("C15 %s %s%s" % (inv, bad["kind"], cls),
                       "recorded %s violates %s: %s" % (bad["kind"], inv,
                                                       {k: bad[k] for k in bad if not k.startswith("exp_")}), bad)
         nval -= 1
@@ -370,12 +573,41 @@ def run(ctx):
              "MeasureClockOffsetSCION over loopback responders with crypto/rand.Reader scripted; quick: one rng "
              "sequence per configuration plus complete word enumerations (uniformity groups) for sampled "
              "configurations, thorough: all; plus crypto.Sample word enumerations and RandIntn boundary words; "
+             "plus behaviours of several rounds that draw from one path table (TLC: every behaviour of two rounds "
+             "after a refresh at <= 2 clients, <= 3 paths - quick: a sample, thorough: all - and simulated "
+             "behaviours of up to 4 rounds with a refresh anywhere at <= 3 clients, <= 4 paths), replayed with "
+             "every round's slice obtained from a real scion.Pather (StartPather / update against a scripted "
+             "daemon) as timeservice.go does, judged against the daemon's answer at the last refresh, incl. "
+             "uniformity groups on the round after an in-place selection; "
              "distinct = distinct (configuration, rng, failure script)",
         traces_validated_against_impl=nval, records_by_kind=kinds, driver_input=stats,
         unjudged_rounds=unj,
+        shared_table=dict(spec_behaviours_two_rounds=len(ses), spec_behaviours_simulated=len(sim),
+                          spec_behaviours_with_round_after_inplace_selection=n_ex,
+                          replayed_behaviours=stats["sessions"], replayed_rounds_from_pather=len(tabr),
+                          replayed_rounds_after_inplace_selection=stale_seen,
+                          replayed_refreshes=stats["session_refreshes"], uniformity_groups=stats["session_groups"]),
         samples=[rounds[0], rounds[len(rounds) // 2], rounds[-1]] +
                 [r for r in recs if r["kind"] == "sample"][:1] + [r for r in recs if r["kind"] == "word"][:2])
+    ctx.notes.append(
+        "dimension 'where the offered paths come from': Multipath.tla keeps the Pather's table across rounds "
+        "(Refresh/PathsDone replace it, Call takes the round's slice from it). Specification side: TLC explored %d "
+        "states of rounds sharing a table with refreshes in between (TableIntact and the property section hold), "
+        "the control with the working slice aliasing the table violates %s; generated behaviours: %d of two rounds "
+        "(exhaustive at <= 2 clients, <= 3 paths) + %d simulated (<= 4 rounds, <= 3 clients, <= 4 paths); %d of them "
+        "contain a round that starts after an in-place selection (swap-remove / reservoir overwrite) of an earlier "
+        "round on the same table, %d with a sticky client on an offered path in that round, %d with more candidate "
+        "paths than clients to serve. Replayed: %d behaviours, %d rounds drawn from a real scion.Pather, %d of them "
+        "after an in-place selection on the same table, %d refreshes, %d uniformity groups on such rounds."
+        % (res["tab"]["distinct"], res["alias"]["violated"], len(ses), len(sim), n_ex,
+           sum(1 for e in ex_ses + ex_sim if e[1]), sum(1 for e in ex_ses + ex_sim if e[2]),
+           stats["sessions"], len(tabr), stale_seen, stats["session_refreshes"], stats["session_groups"]))
     ctx.assumptions += [
+        "rounds that share a path table: the harness repeats the two statements of ntpReferenceClockSCION."
+        "MeasureClockOffset (ps = c.pather.Paths(ia); MeasureClockOffsetSCION(..., ps)) instead of calling that "
+        "method of package main (a DRIFT line is printed when timeservice.go no longer contains them); the Pather "
+        "is the repository's, its daemon is scripted (go test -overlay renames NewDaemonConnector, VerifRefresh "
+        "calls update); clients are new objects in every round (several reference clocks share a table)",
         "the 2^-31 bound at word size 32 is inferred: TLC counts RandIntn's accepted words exhaustively for W = 4..8 "
         "(quick) / 4..9 (thorough) (every residue q or q-1 words, only residue t short), the real RandIntn is "
         "compared with the W = 32 instance of the same formula on boundary words (t-1, t, t+1, 0, 2^32-1) only",
